@@ -30,7 +30,7 @@ EXTRA_KW = ["property_p", "type1", "net_x", "data1", "potential_q", "discrete_d"
 PLAIN = ["alpha", "b", "Cee_long", "d4", "_e", "Zed"]
 BIF_KEYWORDS = ["variable", "probability", "network", "property", "discrete", "default", "table", "type"]
 SHARED_STATES = ["yes", "no", "maybe", "rarely"]
-KW_STATES = ["table0", "default_1", "states2", "node_3", "net4", "data_5", "type6", "e7"]
+KW_STATES = ["table0", "default_1", "mid__hi", "node_3", "_lead4", "data_5", "trail6_", "e7"]  # identifiers: keyword-like, double/leading/trailing underscores
 KW_STATES_BIF_BREAKING = ["variable_s", "s_probability", "probability2", "my_variable"]
 
 
